@@ -112,6 +112,17 @@ def cases(tier, seed):
                 if all(x >= n for x, n in zip(shape, need)):
                     for usebuf in (False, True):
                         out.append({'d': 3, 'fam': 'lop2', 'layouts': L, 'nprocs': nprocs, 'shape': list(shape), 'dtype': 'float64', 'buf': usebuf, 'cost': 8})
+    # a chain of five orderings of a 3-D array without shortcuts: routes of 1 to 4 steps on every 2-D process grid (the parity of
+    # the route length decides which of the two work arrays holds the result)
+    chain5 = [(0, 1, 2), (0, 2, 1), (1, 2, 0), (1, 0, 2), (2, 0, 1)]
+    L5 = {name_of(p): list(p) for p in chain5}
+    for nprocs in ([2, 2], [2, 3], [3, 2]) + (([3, 3], [2, 4]) if tier == 'thorough' else ()):
+        need = _needs(L5, nprocs)
+        for shape in ((4, 4, 4), (5, 7, 6), (4, 5, 7)) + (((6, 6, 5), (9, 4, 5)) if tier == 'thorough' else ()):
+            if all(x >= n for x, n in zip(shape, need)):
+                for dtype in ('float64', 'complex128'):
+                    for usebuf in (False, True):
+                        out.append({'d': 3, 'fam': 'chain5-3d', 'layouts': L5, 'nprocs': list(nprocs), 'shape': list(shape), 'dtype': dtype, 'buf': usebuf, 'cost': 25 * nprocs[0] * nprocs[1]})
     lop4 = [(5, 8, 6, 30), (21, 21, 3, 16), (3, 4, 13, 3), (13, 3, 3, 4), (3, 13, 4, 13)]
     for nprocs in [[1, 3], [2, 2], [3, 1], [2, 3], [1, 2]] + ([[1, 4], [4, 1], [3, 3]] if tier == "thorough" else []):
         need = _needs(PHYS, nprocs)
